@@ -1030,9 +1030,9 @@ func main() {
 	}
 	installHook()
 	r := rng.New(*seed)
-	nSeq, nConc, maxN, nRebuild := 1000, 1000, 5, 24
+	nSeq, nConc, maxN, nRebuild := 1000, 1000, 5, 16
 	if *tier == "thorough" {
-		nSeq, nConc, maxN, nRebuild = 20000, 20000, 6, 600
+		nSeq, nConc, maxN, nRebuild = 20000, 20000, 6, 300
 	}
 	witnesses(cw)
 	// exhaustive release subsets, ascending release order, for 1..maxN caches (6 in the thorough tier);
